@@ -34,52 +34,68 @@ Proof. exact boundary_instants. Qed.
 Definition C49_full_statement : Prop :=
   forall p w ct, outsideb ct w = true -> is_grant (run p w ct) = false.
 
-(* It does NOT hold of the code (pinned tree and repaired tree alike): a login whose Init step
-   fell inside the window is completed after the expiry. *)
+(* It does NOT hold of the code (before and after the RADIUS fix alike): a login whose Init step
+   fell inside the window is completed after the expiry (KNOWN finding class=continuation). *)
 Theorem C49_refuted : ~ C49_full_statement.
 Proof.
   intros H. specialize (H (PLogin 5 true true) (mkwin None (Some 10)) 20 eq_refl).
   vm_compute in H. discriminate H.
 Qed.
 
-(* On the pinned tree it also fails for the single-call RADIUS release: a member of
-   idm_radius_servers, with exactly the attributes the SHIPPED profile lets it read, receives the
-   secret of an account that expired (or is not yet valid). *)
+(* RADIUS secret release (HEAD, fix ed71ad3): gated for EVERY requester and EVERY reduced view of
+   the account, i.e. for every set of access profiles — whatever the requester may or may not
+   read, an account outside its window does not get its secret released. *)
+Theorem C49_radius_full : forall k rd hs w ct,
+  outsideb ct w = true -> is_grant (run (PRadius k rd hs) w ct) = false.
+Proof. intros k rd hs w ct H. exact (radius_fixed_gated rd hs w ct H). Qed.
+
+(* ... and it is still served inside the window: granted exactly when the requester can read
+   class, secret, name and displayname, the unreduced window holds (inclusive) and the reduced
+   one holds (exclusive) *)
+Theorem C49_radius_granted_iff : forall k rd hs w ct,
+  is_grant (run (PRadius k rd hs) w ct) =
+  rd_vis rd && rd_class rd && (rd_secret rd && hs) && rd_name rd && rd_dn rd &&
+  within_le ct w && within_lt ct (reduce rd w).
+Proof.
+  intros k rd hs w ct. unfold run, tree_fixed. cbn [run_gen]. unfold radius_gen. cbn [andb].
+  destruct (rd_vis rd), (rd_class rd), (rd_secret rd), hs, (rd_name rd), (rd_dn rd); cbn [negb andb]; try reflexivity;
+    destruct (within_le ct w); cbn [negb andb]; try reflexivity; destruct (within_lt ct (reduce rd w)); reflexivity.
+Qed.
+
+(* BEFORE the fix the full RADIUS statement failed: a member of idm_radius_servers, with exactly
+   the attributes the SHIPPED profile lets it read, received the secret of an account that had
+   expired (or was not yet valid). *)
 Theorem C49_prefix_radius_refuted :
   exists w ct, outsideb ct w = true /\
     is_grant (run_gen false (PRadius KRadSrv (allowed KRadSrv) true) w ct) = true.
 Proof. exists (mkwin (Some 50) (Some 100)), 200. vm_compute. split; reflexivity. Qed.
 
-(* The pinned RADIUS path releases the secret exactly when the ACCESS-REDUCED entry passes the
-   (exclusive) gate: validity attributes the requester may not read do not count. *)
-Theorem C49_radius_reads_reduced_entry : forall rd hs w ct,
+(* The pre-fix RADIUS path released the secret exactly when the ACCESS-REDUCED entry passed the
+   (exclusive) gate: validity attributes the requester may not read did not count. *)
+Theorem C49_prefix_radius_reads_reduced_entry : forall rd hs w ct,
   is_grant (radius_gen false rd hs w ct) =
   rd_vis rd && rd_class rd && (rd_secret rd && hs) && rd_name rd && rd_dn rd && within_lt ct (reduce rd w).
 Proof. exact radius_prefix_char. Qed.
 
-(* ... so a requester that can read both attributes (the account itself, people admins) is refused *)
-Theorem C49_radius_prefix_gated_when_readable : forall rd hs w ct,
+(* ... so only requesters that can read both attributes (the account itself, people admins) were refused *)
+Theorem C49_prefix_radius_gated_when_readable : forall rd hs w ct,
   rd_vf rd = true -> rd_ex rd = true ->
   outsideb ct w = true -> is_grant (radius_gen false rd hs w ct) = false.
 Proof. exact radius_prefix_gated_when_readable. Qed.
 
-(* With fixes/C49.patch the RADIUS release is gated for EVERY reduced view, i.e. for every set of
-   access profiles and every requester. *)
-Theorem C49_radius_fixed_full : forall k rd hs w ct,
-  outsideb ct w = true -> is_grant (run_gen true (PRadius k rd hs) w ct) = false.
-Proof. intros k rd hs w ct H. exact (radius_fixed_gated rd hs w ct H). Qed.
-
-(* Everything outside the two recorded classes is gated (both trees):
-   radius-reduced-validity = RADIUS release where every violated bound is hidden from the requester
-                             (pinned tree only),
-   continuation            = login / OAuth2 code exchange whose FIRST step was inside the window. *)
+(* PARTIAL (HEAD): everything outside the one recorded class is gated — for every front end,
+   window, instant, requester, reduced view and other input:
+   continuation = login / OAuth2 code exchange whose FIRST step was inside the window.
+   Missing for the full statement: refusal at the COMPLETION step of these two flows. *)
 Theorem C49_partial : forall p w ct,
-  outsideb ct w = true -> known_gen tree_fixed p w ct = false -> is_grant (run p w ct) = false.
-Proof. intros p w ct. exact (partial tree_fixed p w ct). Qed.
+  outsideb ct w = true -> continuation_class p w ct = false -> is_grant (run p w ct) = false.
+Proof. intros p w ct Ho Hc. apply (partial true); [exact Ho|]. unfold known_gen. rewrite Hc. reflexivity. Qed.
 
-Theorem C49_partial_fixed_tree : forall p w ct,
-  outsideb ct w = true -> continuation_class p w ct = false -> is_grant (run_gen true p w ct) = false.
-Proof. intros p w ct Ho Hc. apply partial; [exact Ho|]. unfold known_gen. rewrite Hc. reflexivity. Qed.
+(* the tree before the fix had the second class radius-reduced-validity (every violated bound
+   hidden from the requester) *)
+Theorem C49_prefix_partial : forall p w ct,
+  outsideb ct w = true -> known_gen false p w ct = false -> is_grant (run_gen false p w ct) = false.
+Proof. intros p w ct. exact (partial false p w ct). Qed.
 
 (* Every single-call front end — POSIX password check, LDAP password / anonymous / application
    bind, LDAP session revalidation, LDAP token binds, user auth token, API token, OAuth2
